@@ -384,7 +384,7 @@ func isolate(name string, args []string, out string) error {
 		return err
 	}
 	defer final.close()
-	skip := 0
+	skip, hangs := 0, 0
 	for attempt := 0; attempt < 200; attempt++ {
 		part := fmt.Sprintf("%s.part%d", out, attempt)
 		argv := append([]string{name}, args...)
@@ -427,6 +427,11 @@ func isolate(name string, args []string, out string) error {
 			// continue after the last completed case, unless there was no progress at all
 			if last > skip {
 				skip = last
+				// every hang costs a deadline and a restart: after a few of them the point is made (each is a verdict of its
+				// own), the rest of this shard is left out
+				if hangs++; hangs >= 4 {
+					return nil
+				}
 				continue
 			}
 			return fmt.Errorf("child failed outside a case without progress: %v", werr)
